@@ -38,7 +38,7 @@ func run(c *vk.Ctx) {
 	for _, be := range backends {
 		n := nCases
 		if be == "sqlite" {
-			n = nCases / 5
+			n = nCases / 14 // the pure-Go sqlite driver serialises on one mutex: deep recursive cases take minutes each
 		}
 		runBackend(c, be, n)
 	}
